@@ -192,6 +192,319 @@ func runC03(c *Ctx) {
 	c.Rule("C03.Q7", "RESET-WITH", "in (*Voter).updateContext the per-(round, round index) counting state — the quorum-crossed flags voteOver and the vote container votesMgr — is replaced on every path on which the stored round or round index changes: a path that reaches the store of the new round index without replacing them has established round == ev.Round and roundIndex == ev.RoundIndex")
 	c.Min(2)
 	c03Q7(c, w)
+
+	// ------------------------------------------------------------ Q8
+	c.Rule("C03.Q8", "GATE", "judgeVoteCount escalates in the voter's own (round, round index); in processVoteMsg every path to that call has tested the message's round equal to the voter's round (Cmp == 0) and the message's round index equal to the voter's round index — the handler's classification is made on another goroutine's context and is re-checked here; also the voter's current vote container is replaced (votesMgr = NewWrapper) only on such paths")
+	c.Min(2)
+	c03Q8(c, w, pvm, jvcObj)
+
+	// ------------------------------------------------------------ Q9
+	c.Rule("C03.Q9", "SAME-VALUE", "the block attached to a commit is the block that was voted for: commit looks the block up under the hash whose votes it attaches, and every function that can be installed as the block lookup returns nil or the entry stored under exactly the hash it was asked for; the cache stores a block only under its own hash")
+	c.Min(4)
+	c03Q9(c, w)
+}
+
+func c03Q8(c *Ctx, w *World, pvm *ssa.Function, jvcObj *types.Func) {
+	isField := func(v ssa.Value, owner, name string) bool {
+		f, _ := loadedField(stripConv(v))
+		return f != nil && f.Name() == name && ownerNameOfField(w, f) == owner
+	}
+	vmF := w.Field(uconPkg, "Voter", "votesMgr")
+	var sites []ssa.Instruction
+	var names []string
+	for _, ci := range callsTo(pvm, jvcObj) {
+		sites = append(sites, ci)
+		names = append(names, "judgeVoteCount")
+	}
+	for _, fw := range fieldWrites(pvm) {
+		if fw.Field == vmF {
+			sites = append(sites, fw.Instr)
+			names = append(names, "votesMgr-replaced")
+		}
+	}
+	if len(sites) == 0 {
+		c.Undecided(fname(pvm)+"#same-context", pvm.Pos(), "no call of judgeVoteCount in processVoteMsg")
+		return
+	}
+	for i, site := range sites {
+		nPaths, bad := 0, 0
+		ok := pathsBetween(pvm, pvm.Blocks[0], site.Block(), 50000, func(blocks []*ssa.BasicBlock, facts []Fact) {
+			atoms := atomsOf(facts)
+			// decisions on the same comparison of the same operands made twice must agree
+			type key struct {
+				x, y string
+			}
+			seen := map[key]bool{}
+			for _, a := range atoms {
+				if a.Kind != "eq" || a.Y == nil {
+					continue
+				}
+				if _, isP := stripConv(a.X).(*ssa.Parameter); !isP {
+					continue
+				}
+				cv, isC := stripConv(a.Y).(*ssa.Const)
+				if !isC || cv.Value == nil {
+					continue
+				}
+				k := key{stripConv(a.X).Name(), cv.Value.ExactString()}
+				if prev, has := seen[k]; has && prev != a.Truth {
+					return // infeasible
+				}
+				seen[k] = a.Truth
+			}
+			nPaths++
+			sameRound, sameIndex := false, false
+			notBelow, notAbove := false, false
+			for _, a := range atoms {
+				if a.Kind == "cmp" && a.Y != nil {
+					msgLeft := isField(a.X, "BlockHashWithVotes", "RoundIndex") && isField(a.Y, "Voter", "roundIndex")
+					msgRight := isField(a.Y, "BlockHashWithVotes", "RoundIndex") && isField(a.X, "Voter", "roundIndex")
+					if msgLeft || msgRight {
+						op := a.Op
+						if msgRight {
+							op = map[token.Token]token.Token{token.LSS: token.GTR, token.GTR: token.LSS, token.LEQ: token.GEQ, token.GEQ: token.LEQ}[op]
+						}
+						// op relates message index (left) to voter index (right)
+						if (op == token.LSS && !a.Truth) || (op == token.GEQ && a.Truth) {
+							notBelow = true
+						}
+						if (op == token.GTR && !a.Truth) || (op == token.LEQ && a.Truth) {
+							notAbove = true
+						}
+					}
+				}
+				if a.Kind != "eq" || !a.Truth {
+					continue
+				}
+				if cc, isCall := stripConv(a.X).(*ssa.Call); isCall && calleeObj(cc) != nil && calleeObj(cc).Name() == "Cmp" {
+					if n, isC := constInt(a.Y); isC && n == 0 {
+						r, g := callRecv(cc), callArgs(cc)[0]
+						if (isField(r, "BlockHashWithVotes", "Round") && isField(g, "Voter", "round")) || (isField(g, "BlockHashWithVotes", "Round") && isField(r, "Voter", "round")) {
+							sameRound = true
+						}
+					}
+				}
+				if (isField(a.X, "Voter", "roundIndex") && isField(a.Y, "BlockHashWithVotes", "RoundIndex")) || (isField(a.Y, "Voter", "roundIndex") && isField(a.X, "BlockHashWithVotes", "RoundIndex")) {
+					sameIndex = true
+				}
+			}
+			if notBelow && notAbove {
+				sameIndex = true
+			}
+			if !sameRound || !sameIndex {
+				bad++
+			}
+		})
+		c.sites += nPaths
+		cons := fmt.Sprintf("%s#%s-only-in-own-round-and-index-%d", fname(pvm), names[i], i)
+		if !ok {
+			c.Undecided(cons, site.Pos(), "paths to the site could not be enumerated")
+			continue
+		}
+		c.Check(cons, site.Pos(), bad == 0 && nPaths > 0, ifelse(bad == 0 && nPaths > 0, fmt.Sprintf("all %d paths tested message round == voter round and message index == voter index", nPaths), fmt.Sprintf("%d of %d paths reach %s without the message's round and round index having been tested equal to the voter's own: votes of another round index are counted and escalated in the voter's current context (a precommit without a prevote quorum of its index, or a commit whose votes belong to another index)", bad, nPaths, names[i])))
+	}
+}
+
+func c03Q9(c *Ctx, w *World) {
+	commit := w.Fn(uconPkg, "Voter", "commit")
+	c.sawFunc(fname(commit))
+	ceBlock := w.Field(uconPkg, "CommitEvent", "Block")
+	getVotes := w.FuncObj(uconPkg, "VotesWrapper", "getVotes")
+	// (1) commit: the Block of the event is a lookup under the hash whose votes are attached
+	var lookup *ssa.Call
+	for _, fw := range fieldWrites(commit) {
+		if fw.Field != ceBlock {
+			continue
+		}
+		st, isSt := fw.Instr.(*ssa.Store)
+		if !isSt {
+			continue
+		}
+		backward(st.Val, func(v ssa.Value) bool {
+			if cc, ok := v.(*ssa.Call); ok && lookup == nil {
+				if _, isB := cc.Call.Value.(*ssa.Builtin); !isB {
+					lookup = cc
+				}
+				return false
+			}
+			return lookup == nil
+		})
+	}
+	hashIdx := -1
+	var hashParam *ssa.Parameter
+	if lookup != nil {
+		for i, a := range lookup.Call.Args {
+			if p, ok := stripConv(a).(*ssa.Parameter); ok && p.Parent() == commit && ownerName(p.Type()) == "Hash" {
+				if hashIdx < 0 {
+					hashIdx, hashParam = i, p
+				}
+			}
+		}
+	}
+	c.sites++
+	okCommit := lookup != nil && hashParam != nil
+	why := "the block of the CommitEvent is not the result of a lookup under one of commit's hash parameters"
+	nVotes := 0
+	if okCommit {
+		for _, gv := range callsTo(commit, getVotes) {
+			nVotes++
+			found := false
+			for _, a := range callArgs(gv) {
+				if stripConv(a) == ssa.Value(hashParam) {
+					found = true
+				}
+			}
+			if !found {
+				okCommit = false
+				why = "the votes attached to the commit are not taken for the hash the block was looked up under (" + w.Pos(gv.Pos()) + ")"
+			}
+		}
+		if nVotes == 0 {
+			okCommit = false
+			why = "no getVotes call found in commit"
+		}
+	}
+	c.Check(fname(commit)+"#block-and-votes-of-one-hash", commit.Pos(), okCommit, ifelse(okCommit, fmt.Sprintf("block = lookup(%s, …), %d getVotes(…, %s, …)", hashParam.Name(), nVotes, hashParam.Name()), why+": the header assembled from the commit carries signatures over another block's hash and is rejected by every verifier"))
+	if !okCommit {
+		return
+	}
+	// (2) every function of the lookup's signature in package ucon
+	var sig *types.Signature
+	if s, ok := lookup.Call.Value.Type().Underlying().(*types.Signature); ok {
+		sig = s
+	}
+	if sig == nil {
+		c.Undecided(fname(commit)+"#block-lookup-signature", lookup.Pos(), "the block lookup is not a call through a function value")
+		return
+	}
+	// position of the hash among the lookup's declared parameters (a dynamic call has no receiver argument)
+	pIdx := hashIdx
+	var cands []*ssa.Function
+	for _, fn := range w.FuncsIn(uconPkg) {
+		if strings.HasSuffix(w.fileOf(fn.Pos()), "_test.go") || fn.Blocks == nil || fn.Synthetic != "" || fn.Parent() != nil {
+			continue
+		}
+		fs := fn.Signature
+		if fs.Params().Len() != sig.Params().Len() || fs.Results().Len() != sig.Results().Len() {
+			continue
+		}
+		same := true
+		for i := 0; i < fs.Params().Len(); i++ {
+			if !types.Identical(fs.Params().At(i).Type(), sig.Params().At(i).Type()) {
+				same = false
+			}
+		}
+		for i := 0; i < fs.Results().Len(); i++ {
+			if !types.Identical(fs.Results().At(i).Type(), sig.Results().At(i).Type()) {
+				same = false
+			}
+		}
+		if same {
+			cands = append(cands, fn)
+		}
+	}
+	isCand := func(g *ssa.Function) bool {
+		for _, x := range cands {
+			if x == g {
+				return true
+			}
+		}
+		return false
+	}
+	for _, fn := range cands {
+		c.sites++
+		c.sawFunc(fname(fn))
+		off := 0
+		if fn.Signature.Recv() != nil {
+			off = 1
+		}
+		own := fn.Params[pIdx+off]
+		bad := ""
+		for _, b := range fn.Blocks {
+			r, ok := b.Instrs[len(b.Instrs)-1].(*ssa.Return)
+			if !ok || b == fn.Recover || len(r.Results) == 0 {
+				continue
+			}
+			var check func(v ssa.Value, seen map[ssa.Value]bool) bool
+			check = func(v ssa.Value, seen map[ssa.Value]bool) bool {
+				v = stripConv(v)
+				if seen[v] {
+					return true
+				}
+				seen[v] = true
+				switch x := v.(type) {
+				case *ssa.Const:
+					return x.IsNil()
+				case *ssa.Phi:
+					for _, e := range x.Edges {
+						if !check(e, seen) {
+							return false
+						}
+					}
+					return true
+				case *ssa.Extract:
+					return check(x.Tuple, seen)
+				case *ssa.Lookup:
+					return stripConv(x.Index) == ssa.Value(own)
+				case *ssa.UnOp:
+					if x.Op == token.MUL {
+						if al, isAl := x.X.(*ssa.Alloc); isAl {
+							for _, rr := range *al.Referrers() {
+								if st, isSt := rr.(*ssa.Store); isSt && st.Addr == ssa.Value(al) && !check(st.Val, seen) {
+									return false
+								}
+							}
+							return true
+						}
+					}
+				case *ssa.Call:
+					if g := x.Call.StaticCallee(); g != nil && isCand(g) {
+						goff := 0
+						if g.Signature.Recv() != nil {
+							goff = 1
+						}
+						return stripConv(x.Call.Args[pIdx+goff]) == ssa.Value(own)
+					}
+				}
+				return false
+			}
+			if !check(r.Results[0], map[ssa.Value]bool{}) && bad == "" {
+				bad = w.Pos(r.Pos())
+			}
+		}
+		c.Check(fname(fn)+"#returns-the-entry-of-the-asked-hash", fn.Pos(), bad == "", ifelse(bad == "", "every return is nil, the map entry under the asked hash, or a delegation with that hash", "the return at "+bad+" can hand back a block that is not the entry stored under the asked hash: a commit (or marked block) then carries a block nobody voted for together with the votes for another hash"))
+	}
+	// (3) the cache stores a block under its own hash
+	blocksF := w.Field(uconPkg, "PriorityManager", "blocks")
+	nUpd := 0
+	for _, fn := range w.FuncsIn(uconPkg) {
+		if strings.HasSuffix(w.fileOf(fn.Pos()), "_test.go") {
+			continue
+		}
+		for _, b := range fn.Blocks {
+			for _, in := range b.Instrs {
+				mu, ok := in.(*ssa.MapUpdate)
+				if !ok {
+					continue
+				}
+				if f, _ := loadedField(stripConv(mu.Map)); f != blocksF {
+					continue
+				}
+				nUpd++
+				c.sites++
+				okKey := false
+				if kc, isCall := stripConv(mu.Key).(*ssa.Call); isCall {
+					if o := calleeObj(kc); o != nil && o.Name() == "Hash" && recvName(o) == "Block" && samePath(callRecv(kc), mu.Value) {
+						okKey = true
+					}
+				}
+				c.Check(fmt.Sprintf("%s#block-cached-under-own-hash-%d", fname(fn), nUpd), mu.Pos(), okKey, ifelse(okKey, "blocks[b.Hash()] = b", "a block is cached under a key that is not its own hash: the lookup by voted hash returns another block"))
+			}
+		}
+	}
+	if nUpd == 0 {
+		c.Undecided("consensus/ucon.PriorityManager#blocks-writes", token.NoPos, "no write to PriorityManager.blocks found")
+	}
 }
 
 func c03Q7(c *Ctx, w *World) {
